@@ -379,6 +379,23 @@ def rule_file_separator(ctx, rep: Report, rid="Y1"):
             f"{ci.mod.rel}:{loc_line}")
 
 
+class _Emit:
+    """An emission statement seen as `<accumulator> += <value>` whatever its spelling (`+=` or `.append(...)`)."""
+
+    def __init__(self, st, value):
+        self.st, self.value, self.lineno = st, value, st.lineno
+
+
+def _emissions(node):
+    """(statement, emitted value, accumulator name) for `acc += v` and `acc.append(v)` below node."""
+    for st in ast.walk(node):
+        if isinstance(st, ast.AugAssign) and isinstance(st.op, ast.Add) and isinstance(st.target, ast.Name):
+            yield st, st.value, st.target.id
+        elif isinstance(st, ast.Expr) and isinstance(st.value, ast.Call) and isinstance(st.value.func, ast.Attribute) \
+                and st.value.func.attr == "append" and isinstance(st.value.func.value, ast.Name) and len(st.value.args) == 1:
+            yield st, st.value.args[0], st.value.func.value.id
+
+
 # ==========================================================================================
 # C10
 def rule_preamble_pairing(ctx, rep: Report, rid="T1"):
@@ -391,12 +408,11 @@ def rule_preamble_pairing(ctx, rep: Report, rid="T1"):
     cvar = loop.target.id
     fo = Folder(prog, ci.mod, gp, ci)
     frag = {}
-    for st in ast.walk(loop):
-        if isinstance(st, ast.AugAssign) and isinstance(st.value, ast.Call) and isinstance(st.value.func, ast.Attribute) \
-                and st.value.func.attr == "format":
-            src = unparse(st.value.func.value)
+    for st, val, acc_ in _emissions(loop):
+        if isinstance(val, ast.Call) and isinstance(val.func, ast.Attribute) and val.func.attr == "format":
+            src = unparse(val.func.value)
             gs = [(t, pol) for t, pol in guards_of(st, gp, include_exits=False)]
-            frag[src] = (st, gs, unparse(st.target))
+            frag[src] = (_Emit(st, val), gs, acc_)
     tc = frag.get("WrapperTemplate.typdef_collectors")
     do = frag.get("WrapperTemplate.delete_obj")
     rep.add(rid, "preamble:collector declaration and clean-up fragment emitted under identical conditions for every class",
@@ -410,7 +426,7 @@ def rule_preamble_pairing(ctx, rep: Report, rid="T1"):
         rep.add(rid, "preamble:both fragments are named after the same class", k1.get("class_name") is not None
                 and k1.get("class_name") == k2.get("class_name"), f"{k1} vs {k2}", f"{ci.mod.rel}:{loop.lineno}")
     # RTTI
-    rtti = [st for st in ast.walk(loop) if isinstance(st, ast.AugAssign) and "typeid" in unparse(st.value)]
+    rtti = [st for st, val, acc_ in _emissions(loop) if "typeid" in unparse(val)]
     ok = len(rtti) == 1 and [t for t, pol in guards_of(rtti[0], gp, include_exits=False) if pol] == [f"{cvar}.is_virtual"]
     rep.add(rid, "preamble:RTTI registry entry iff the class is virtual", ok,
             f"guards {[guards_of(r, gp, include_exits=False) for r in rtti]}", f"{ci.mod.rel}:{loop.lineno}")
@@ -854,10 +870,11 @@ def rule_index_alignment(ctx, rep: Report, rid="M1"):
         fo = Folder(prog, ci.mod, fn, ci)
         idx_slots = set()
         for c in ast.walk(main):
-            if isinstance(c, ast.Call) and isinstance(c.func, ast.Attribute) and c.func.attr == "format":
+            if (isinstance(c, ast.Call) and isinstance(c.func, ast.Attribute) and c.func.attr == "format") or isinstance(c, ast.JoinedStr):
                 t = fo.fold(c)
                 if t is None:
                     continue
+                t = t.flat()
                 lit = t.literal("@")
                 for s in t.slots():
                     i = t.parts.index(s)
@@ -986,7 +1003,7 @@ def _guard_builder_form(ctx, name: str) -> Tuple[List[str], List[Tuple[str, str]
                     appended.append((" & ".join(ren(g) for g, pol in guards_of(st, fn, include_exits=False) if pol),
                                      f"<call {v.func.attr}({', '.join(ren(unparse(a)) for a in v.args)})>"))
                 continue
-            txt = "".join(p if isinstance(p, str) else "<" + ren(unparse(p.expr)) + ">" for p in t.parts)
+            txt = "".join(p if isinstance(p, str) else "<" + ren(unparse(p.expr)) + ">" for p in t.flat().parts)
             gs = " & ".join(ren(g) for g, pol in guards_of(st, fn, include_exits=False) if pol)
             appended.append((gs, txt))
     if lookup_helper is not None:
@@ -1231,25 +1248,41 @@ def rule_defaults(ctx, rep: Report, rid="M4"):
     mp, sb = func_params(fn)[0], func_params(fn)[1]
     body = [st for st in fn.body if not isinstance(st, (ast.FunctionDef, ast.Expr))]
     backup = [st for st in body if isinstance(st, ast.If) and unparse(st.test) == sb and any(".backup" in unparse(x) for x in st.body)]
-    loops = [st for st in body if isinstance(st, ast.For)]
-    ok_backup = len(backup) == 1 and bool(loops) and backup[0].lineno < loops[0].lineno
+    removes = [c for c in walk_no_nested(fn) if isinstance(c, ast.Call) and isinstance(c.func, ast.Attribute) and c.func.attr in ("remove", "pop")]
+    ok_backup = len(backup) == 1 and bool(removes) and all(backup[0].lineno < r.lineno for r in removes)
     rep.add(rid, "defaults:the full argument list is saved once, by the outermost call, before anything is removed", ok_backup,
-            f"backup statement(s): {[unparse(b.test) for b in backup]}", loc)
-    ok_loop = False
-    detail = ""
-    if loops:
-        l = loops[0]
-        it = unparse(l.iter).replace(" ", "")
-        v = l.target.id
-        inner_if = [s for s in l.body if isinstance(s, ast.If)]
-        ends_break = isinstance(l.body[-1], ast.Break)
-        rec = [c for c in ast.walk(l) if isinstance(c, ast.Call) and unparse(c.func).endswith("_expand_default_arguments")]
+            f"backup statement(s): {[unparse(b.test) for b in backup]}; removals at lines {[r.lineno for r in removes]}", loc)
+    # the argument that is peeled off is the last one, only if it has a default, one per call
+    la_ = local_assignments(fn)
+
+    def is_arg_list(e) -> bool:
+        e = inline_locals(fn, e)
+        return unparse(e).replace(" ", "") == f"{mp}.args.list()"
+    cand, how = None, ""
+    for l in [x for x in body if isinstance(x, ast.For)]:
+        it = l.iter
+        if isinstance(it, ast.Call) and unparse(it.func) == "reversed" and it.args and is_arg_list(it.args[0]) and isinstance(l.target, ast.Name) \
+                and isinstance(l.body[-1], ast.Break):
+            cand, how, scope = l.target.id, "first item of reversed(args), loop left after one iteration", l
+    if cand is None:
+        for i in [x for x in body if isinstance(x, ast.If)]:
+            subs = [x for x in ast.walk(i.test) if isinstance(x, ast.Subscript) and isinstance(x.slice, ast.UnaryOp) and isinstance(x.slice.op, ast.USub)
+                    and isinstance(x.slice.operand, ast.Constant) and x.slice.operand.value == 1 and is_arg_list(x.value)]
+            if subs:
+                cand_expr = unparse(subs[0])
+                named = [n_ for n_, sts in la_.items() for st in sts if isinstance(st, ast.Assign) and unparse(st.value) == cand_expr]
+                cand, how, scope = (named[0] if named else cand_expr), "args[-1]", i
+    ok_loop, detail = False, "no statement that looks at the last argument was found"
+    if cand is not None:
+        tests = [unparse(t.test if isinstance(t, ast.If) else t).replace(" ", "") for t in ast.walk(scope) if isinstance(t, ast.If)]
+        tested = any(f"{cand}.defaultisnotNone" in t.replace(unparse(inline_locals(fn, ast.parse(cand, mode='eval').body)).replace(" ", ""), cand) or
+                     ".defaultisnotNone" in t for t in tests)
+        rec = [c for c in ast.walk(scope) if isinstance(c, ast.Call) and unparse(c.func).endswith("_expand_default_arguments")]
         rec_ok = len(rec) == 1 and any(k.arg == sb and unparse(k.value) == "False" for k in rec[0].keywords)
-        rem = [c for c in ast.walk(l) if isinstance(c, ast.Call) and isinstance(c.func, ast.Attribute) and c.func.attr == "remove"
-               and unparse(c.args[0]) == v]
-        ok_loop = it == f"reversed({mp}.args.list())" and len(inner_if) == 1 and unparse(inner_if[0].test) == f"{v}.default is not None" \
-            and ends_break and rec_ok and len(rem) == 1
-        detail = f"iterates {it}; test {[unparse(i.test) for i in inner_if]}; ends with break: {ends_break}; recursion keeps backup: {rec_ok}; removes the tail argument: {len(rem) == 1}"
+        rem = [c for c in ast.walk(scope) if isinstance(c, ast.Call) and isinstance(c.func, ast.Attribute) and c.func.attr == "remove"
+               and unparse(c.args[0]) == cand and is_arg_list(c.func.value)]
+        ok_loop = tested and rec_ok and len(rem) == 1
+        detail = f"candidate `{cand}` ({how}); tested for a default: {tested}; recursion keeps the backup: {rec_ok}; removes the candidate: {len(rem) == 1}"
     rep.add(rid, "defaults:peels defaulted arguments from the tail, one arity per call, stopping at the first non-defaulted one", ok_loop, detail, loc)
     # (what the call receives per parameter is decided path by path in rule_call_arguments_per_parameter)
 
@@ -1354,9 +1387,31 @@ def rule_return_shapes(ctx, rep: Report, rid="M6"):
     rt = prog.method("MatlabWrapper", "wrap_collector_function_return_types")
     p = func_params(rt)[2]
     t = unparse(rt)
-    sel = [x for x in ast.walk(rt) if isinstance(x, ast.IfExp) and isinstance(x.body, ast.Constant) and x.body.value == "first"
-           and isinstance(x.orelse, ast.Constant) and x.orelse.value == "second" and unparse(x.test).replace(" ", "") == f"{p}==0"]
-    ok = len(sel) == 1 and f"'  out[' + str({p}) + '] = '" in t
+    def picks_first_for_zero(x) -> bool:
+        if not (isinstance(x, ast.IfExp) and isinstance(x.body, ast.Constant) and isinstance(x.orelse, ast.Constant)):
+            return False
+        test = unparse(inline_locals(rt, x.test)).replace(" ", "")
+        pair = (x.body.value, x.orelse.value)
+        return (pair == ("first", "second") and test in (f"{p}==0", f"not{p}")) or \
+            (pair == ("second", "first") and test in (f"{p}!=0", f"{p}==1", f"{p}"))
+    sel = [x for x in ast.walk(rt) if picks_first_for_zero(x)]
+    # the output slot is indexed by the same position: `out[<p>]`, built by concatenation, format or f-string
+    fo_ = Folder(prog, ci.mod, rt, ci)
+    indexed = False
+    for e in ast.walk(rt):
+        if isinstance(e, (ast.BinOp, ast.JoinedStr)) or (isinstance(e, ast.Call) and isinstance(e.func, ast.Attribute) and e.func.attr == "format"):
+            try:
+                tt = fo_.fold(e)
+            except AnalysisError:
+                tt = None
+            if tt is None:
+                continue
+            parts = tt.flat().parts
+            for i_, q in enumerate(parts):
+                if isinstance(q, str) and q.endswith("out[") and i_ + 1 < len(parts) and not isinstance(parts[i_ + 1], str) \
+                        and unparse(parts[i_ + 1].expr).replace(" ", "") in (p, f"str({p})"):
+                    indexed = True
+    ok = len(sel) == 1 and indexed
     rep.add(rid, "pair slots:element k of the pair goes to out[k] (first -> 0, second -> 1)", ok, "", f"{ci.mod.rel}:{rt.lineno}")
     fv = prog.method("MatlabWrapper", "_format_varargout")
     t = unparse(fv)
@@ -1365,23 +1420,50 @@ def rule_return_shapes(ctx, rep: Report, rid="M6"):
             nontrivial=False)
 
 
+def _decision_chain(fn) -> List[Tuple[Optional[ast.AST], List[ast.stmt]]]:
+    """The cases of a function that decides by the first test that holds, in order: (test, statements of the case), the
+    default last with test None.  Two spellings are read alike: an if / elif / else chain, and a run of
+    `if <test>: ... return` guard clauses followed by the default statements."""
+    out: List[Tuple[Optional[ast.AST], List[ast.stmt]]] = []
+    body = [st for st in fn.body if not (isinstance(st, ast.Expr) and isinstance(st.value, ast.Constant))]
+    i = next((k for k, st in enumerate(body) if isinstance(st, ast.If)), None)
+    if i is None:
+        return out
+    node = body[i]
+    if node.orelse:
+        # if / elif / else chain
+        while isinstance(node, ast.If):
+            out.append((node.test, node.body))
+            if node.orelse and not (len(node.orelse) == 1 and isinstance(node.orelse[0], ast.If)):
+                out.append((None, node.orelse))
+                break
+            node = node.orelse[0] if node.orelse else None
+        return out
+    k = i
+    while k < len(body) and isinstance(body[k], ast.If) and not body[k].orelse and body[k].body and isinstance(body[k].body[-1], ast.Return):
+        out.append((body[k].test, body[k].body))
+        k += 1
+    if k < len(body):
+        out.append((None, body[k:]))
+    return out
+
+
 def rule_marshalling_table(ctx, rep: Report, rid="M7"):
     ci, prog = mw(ctx)
     ua = prog.method("MatlabWrapper", "_unwrap_argument")
     chain = []
-    node = next((s for s in ua.body if isinstance(s, ast.If)), None)
-    while isinstance(node, ast.If):
-        t = unparse(node.test)
+    for test, body in _decision_chain(ua):
+        btxt = " ".join(unparse(b) for b in body)
+        if test is None:
+            fn_used = "unwrap<" if ("unwrap<" in btxt or "'unwrap< " in btxt) else "?"
+            chain.append(("value", fn_used, False))
+            continue
+        t = unparse(test)
         kind = "enum" if "is_enum" in t else "ref" if "is_ref" in t else "ptr" if "self.is_ptr" in t and "is_shared_ptr" not in t else \
             "shared" if "is_shared_ptr" in t else "?"
-        fn_used = next((f for f in ("unwrap_enum", "unwrap_shared_ptr", "unwrap_ptr", "unwrap<") if any(f in unparse(b) for b in node.body)), "?")
-        deref = any("'*unwrap_shared_ptr" in unparse(b) for b in node.body)
+        fn_used = next((f for f in ("unwrap_enum", "unwrap_shared_ptr", "unwrap_ptr", "unwrap<") if f in btxt), "?")
+        deref = "'*unwrap_shared_ptr" in btxt
         chain.append((kind, fn_used, deref))
-        if node.orelse and not isinstance(node.orelse[0], ast.If):
-            fn_used = "unwrap<" if any("unwrap<" in unparse(b) or "'unwrap< " in unparse(b) for b in node.orelse) else "?"
-            chain.append(("value", fn_used, False))
-            break
-        node = node.orelse[0] if node.orelse else None
     want = [("enum", "unwrap_enum", False), ("ref", "unwrap_shared_ptr", True), ("ptr", "unwrap_ptr", False),
             ("shared", "unwrap_shared_ptr", False), ("value", "unwrap<", False)]
     rep.add(rid, "unwrap table:enum, reference, raw pointer, shared/object, value - in this priority, each with its unwrap function", chain == want,
